@@ -79,6 +79,9 @@ func (c10) Gen(rng *simrt.Rand, tier string, run int) interface{} {
 		nAddr = 1
 	}
 	nClients := 2 + rng.Intn(3)
+	// a tiny content alphabet in a third of the plans: the same block content is
+	// written again and again (content-addressed shortcuts, caches keyed by value)
+	tinyAlphabet := rng.Chance(1, 3)
 	id := uint64(0)
 	for c := 0; c < nClients; c++ {
 		n := 1 + rng.Intn(5)
@@ -94,7 +97,12 @@ func (c10) Gen(rng *simrt.Rand, tier string, run int) interface{} {
 			switch rng.Intn(10) {
 			case 0, 1, 2, 3:
 				id++
-				ops = append(ops, DiskOp{Kind: "write", Addr: a, ID: 0x1000*uint64(c+1) + id})
+				w := DiskOp{Kind: "write", Addr: a, ID: 0x1000*uint64(c+1) + id}
+				if tinyAlphabet || rng.Chance(1, 6) {
+					// content that was (or will be) written before: block 0xEE / 0xEF / zeros
+					w.ID = []uint64{0xEE, 0xEF, 0xEE, 0}[rng.Intn(4)]
+				}
+				ops = append(ops, w)
 			case 4, 5, 6:
 				ops = append(ops, DiskOp{Kind: "read", Addr: a})
 			case 7, 8:
@@ -186,7 +194,7 @@ func (c10) Exec(pj json.RawMessage, tape *simrt.Tape, keepLog bool) harness.RunO
 	if err := json.Unmarshal(pj, &p); err != nil {
 		return harness.RunOut{Infra: err.Error()}
 	}
-	s := simrt.New(simrt.Config{Tape: tape, KeepLog: keepLog})
+	s := simrt.New(simrt.Config{DaemonsOK: true, Tape: tape, KeepLog: keepLog})
 	k := simunix.NewKernel(simunix.Config{SplitPwrite: p.Split})
 	simunix.Attach(s, k)
 	recs := make([][]opRec, len(p.Clients))
@@ -369,11 +377,14 @@ func checkFileHistory(size uint64, all []opRec) *harness.Violation {
 		return v
 	}
 	writesTo := map[uint64][]opRec{}
-	idAddr := map[uint64]uint64{}
+	idAddr := map[uint64]map[uint64]bool{} // content id -> addresses it was written to
 	for _, r := range all {
 		if r.Op.Kind == "write" && !r.Refused {
 			writesTo[r.Op.Addr] = append(writesTo[r.Op.Addr], r)
-			idAddr[r.Op.ID] = r.Op.Addr
+			if idAddr[r.Op.ID] == nil {
+				idAddr[r.Op.ID] = map[uint64]bool{}
+			}
+			idAddr[r.Op.ID][r.Op.Addr] = true
 		}
 	}
 	for _, r := range all {
@@ -382,20 +393,35 @@ func checkFileHistory(size uint64, all []opRec) *harness.Violation {
 		}
 		ws := writesTo[r.Op.Addr]
 		unconstrained := false
-		for i, w := range ws {
+		// frontier: completed writes that no other completed write strictly follows
+		var frontier []opRec
+		for _, w := range ws {
 			if w.Call < r.Ret && r.Call < w.Ret {
-				unconstrained = true // overlaps a write
+				unconstrained = true // the read overlaps a write
 			}
-			for j, w2 := range ws {
-				if i < j && w.Call < w2.Ret && w2.Call < w.Ret && (w.Call < r.Ret || w2.Call < r.Ret) {
-					unconstrained = true // two writes to this address overlapped each other
+			if w.Ret >= r.Call {
+				continue
+			}
+			followed := false
+			for _, w2 := range ws {
+				if w2.Call > w.Ret && w2.Ret < r.Call {
+					followed = true
+				}
+			}
+			if !followed {
+				frontier = append(frontier, w)
+			}
+		}
+		for i, w := range frontier {
+			for j, w2 := range frontier {
+				if i < j && w.Call < w2.Ret && w2.Call < w.Ret {
+					unconstrained = true // two frontier writes overlapped each other: a mixture may persist
 				}
 			}
 		}
 		// interference from another address is never allowed
 		foreign := func(id uint64) bool {
-			a, ok := idAddr[id]
-			return id != 0 && (!ok || a != r.Op.Addr)
+			return id != 0 && !idAddr[id][r.Op.Addr]
 		}
 		if foreign(r.Val) || (!r.Uniform && foreign(r.Second)) {
 			return viol("filedisk.conc.cross-address", fmt.Sprintf("client %d %s(addr %d) returned data %#x/%#x written to a different address", r.Client, r.Op.Kind, r.Op.Addr, r.Val, r.Second))
@@ -407,22 +433,10 @@ func checkFileHistory(size uint64, all []opRec) *harness.Violation {
 			return viol("filedisk.conc.stale-read", fmt.Sprintf("client %d %s(addr %d) overlapping no write returned a mixed block %#x/%#x", r.Client, r.Op.Kind, r.Op.Addr, r.Val, r.Second))
 		}
 		allowed := map[uint64]bool{}
-		anyBefore := false
-		for _, w := range ws {
-			if w.Ret < r.Call {
-				anyBefore = true
-				overwritten := false
-				for _, w2 := range ws {
-					if w2.Call > w.Ret && w2.Ret < r.Call {
-						overwritten = true
-					}
-				}
-				if !overwritten {
-					allowed[w.Op.ID] = true
-				}
-			}
+		for _, w := range frontier {
+			allowed[w.Op.ID] = true
 		}
-		if !anyBefore {
+		if len(frontier) == 0 {
 			allowed[0] = true
 		}
 		if !allowed[r.Val] {
